@@ -68,6 +68,9 @@ type realm struct {
 	// Session meta-procedure registration ID -> handler map.
 	metaProcMap map[wamp.ID]func(*wamp.Invocation) wamp.Message
 	metaDone    chan struct{}
+	// metaSessEnd is closed when the handler for messages from the meta
+	// session has exited.
+	metaSessEnd chan struct{}
 
 	closed    bool
 	closeLock sync.Mutex
@@ -109,6 +112,7 @@ func newRealm(config *RealmConfig, broker *broker, dealer *dealer, logger stdlog
 		stopped:     make(chan struct{}),
 		metaIDGen:   new(wamp.IDGen),
 		metaDone:    make(chan struct{}),
+		metaSessEnd: make(chan struct{}),
 		metaProcMap: make(map[wamp.ID]func(*wamp.Invocation) wamp.Message, 9),
 		log:         logger,
 		debug:       debug,
@@ -214,6 +218,9 @@ func (r *realm) close() {
 	// finally safe to exit and close the broker.
 	r.metaSess.EndRecv(shutdownGoodbye)
 	<-r.metaDone
+	// The meta session's own message handler submits requests to the broker
+	// and dealer too; it may still be retrying a RESULT for a blocked caller.
+	<-r.metaSessEnd
 
 	// handleInboundMessages() and metaProcedureHandler() are the only things
 	// than can submit request to the broker and dealer, so now that these are
@@ -293,6 +300,7 @@ func (r *realm) createMetaSession() {
 
 	// Run the handler for messages from the meta session.
 	go func() {
+		defer close(r.metaSessEnd)
 		_, _, err := r.handleInboundMessages(r.metaSess)
 		if err != nil {
 			r.log.Println("meta session handler should never return error, got:", err)
